@@ -106,6 +106,8 @@ func (db *DB) Merge() error {
 			if pos != nil && pos.Fid == dataFile.ID &&
 				pos.Offset == logRecordPos.Offset && pos.BlockID == logRecordPos.BlockID {
 				// 将数据重写到 merge 临时目录中
+				// 重写后的记录不再属于任何批处理, 否则重启时会因缺少完成标识而被丢弃
+				logRecord.BatchID = 0
 				pos, err := mergeDB.appendLogRecord(logRecord)
 				if err != nil {
 					return err
